@@ -129,6 +129,17 @@ def gen_func_code(f, lab):
                ("ref", bad), "JUMPI", "STOP", ("label", bad)] + _panic(1)
     elif k == "assert_state":           # if (slot == a) Panic(1)
         it += [("push", s), "SLOAD", ("push", a), "EQ", ("ref", bad), "JUMPI", "STOP", ("label", bad)] + _panic(1)
+    elif k == "assert_stages":
+        # if (slot == a) assert(block.timestamp != 0)  [or: >= 1];  if (slot == c) assert(false)
+        # the first assertion can never fail (setUp runs at timestamp 1, timestamps do not decrease), but the
+        # constraint `timestamp >= previous timestamp` is not a constraint on the state: while the target
+        # transaction is explored the failing branch looks feasible and is refuted only by the full query
+        it += [("push", s), "SLOAD", ("push", a), "EQ", ("ref", lab + "_ts"), "JUMPI"]
+        if "c" in f:
+            it += [("push", s), "SLOAD", ("push", f["c"]), "EQ", ("ref", bad), "JUMPI"]
+        it += ["STOP", ("label", lab + "_ts")]
+        it += (["TIMESTAMP"] if f.get("imp", "ts_nonzero") == "ts_nonzero" else [("push", 1), "TIMESTAMP", "LT", "ISZERO"])
+        it += [("ref", ok), "JUMPI"] + _panic(1) + [("label", ok), "STOP", ("label", bad)] + _panic(1)
     elif k == "roll":                   # vm.roll(K)  -- no storage change
         it += _cheat("roll(uint256)", [("push", K)], lab) + ["STOP"]
     elif k == "roll_arg":               # vm.roll(arg)
@@ -262,6 +273,11 @@ def build_case(case):
     """-> dict(t_rt, t_cr, targets=[(name, rt, cr, funcs)], t_funcs(abi list), blobs)"""
     targets = []
     for t in case["targets"]:
+        if "same_as" in t:
+            # a further INSTANCE of an earlier target's contract: the same artifact deployed once more
+            # (filters for selectors / contracts / senders are per address, the artifact is per contract)
+            targets.append(targets[t["same_as"]])
+            continue
         rt, funcs = build_target(t)
         targets.append((t["name"], rt, asm.creation_code(rt), funcs))
     filters = case.get("filters") or {}
